@@ -15,6 +15,7 @@ import time
 from concurrent.futures import ThreadPoolExecutor
 
 VERIF = "/verif"
+EXTRA_SEEDS = []
 ORIGIN = "fresh sub-agent given only the property text and its own scratch worktree of /repo (nothing from /verif)"
 
 
@@ -49,6 +50,10 @@ def one(name):
         t0 = time.time()
         c, cout = sh(f"./check {prop} --tier quick", cwd=VERIF, env={"VERIF_REPO": sv, "VERIF_SEED": "1"})
         secs = int(time.time() - t0)
+        by_seed = {"1": c == 1 and any(l.startswith("VIOLATION") for l in cout.splitlines())}
+        for extra in EXTRA_SEEDS:
+            ce, coe = sh(f"./check {prop} --tier quick", cwd=VERIF, env={"VERIF_REPO": sv, "VERIF_SEED": str(extra)})
+            by_seed[str(extra)] = ce == 1 and any(l.startswith("VIOLATION") for l in coe.splitlines())
         first = ""
         for l in cout.splitlines():
             if re.match(rf"^\[{prop}/.*\] \[", l):
@@ -81,6 +86,7 @@ def one(name):
             "seconds": secs,
             "caught": c == 1 and bool(viol),
             "first_violation": first,
+            "caught_by_seed": by_seed,
         },
     }
     old = f"{src}/meta.json"
@@ -104,6 +110,10 @@ def main():
         i = args.index("--jobs")
         jobs = int(args[i + 1])
         del args[i : i + 2]
+    if "--seeds" in args:
+        i = args.index("--seeds")
+        EXTRA_SEEDS.extend(int(x) for x in args[i + 1].split(",") if x != "1")
+        del args[i : i + 2]
     names = args or sorted(d for d in os.listdir(f"{VERIF}/seeded") if re.match(r"^C\d\d(-\d)?$", d))
     with ThreadPoolExecutor(jobs) as ex:
         for name, meta in ex.map(one, names):
@@ -114,7 +124,7 @@ def main():
             oc = meta["own_check"]
             print(
                 f"{name}: demo {cf['demo_exit_on_original']}->{cf['demo_exit_with_change']} suite={cf['suite_exit_with_change']} "
-                f"check exit={oc['exit']} caught={oc['caught']} {oc['seconds']}s | {oc['first_violation'][:160]}",
+                f"check exit={oc['exit']} caught={oc['caught']} seeds={oc['caught_by_seed']} {oc['seconds']}s | {oc['first_violation'][:160]}",
                 flush=True,
             )
 
